@@ -58,6 +58,16 @@ def base_axioms():
     return ax
 
 
+def immortal(o):
+    """objects whose reference count CPython 3.12 never changes: None, True, False, the empty tuple"""
+    return z3.Or(o == NONE, o == TRUE, o == FALSE, o == EMPTY_TUPLE)
+
+
+def own_add(own, o, d):
+    """ledger after taking (d > 0) / giving up (d < 0) |d| references to o; NULL and immortal objects do not count"""
+    return z3.If(z3.Or(o == NULL, immortal(o)), own, z3.Store(own, o, own[o] + d))
+
+
 def is_exact(o, tname):
     return type_of(o) == TYPES[tname]
 
@@ -79,6 +89,9 @@ class Api:
         return getattr(self, "f_" + name)(args, st, k)
 
     # ---- helpers ------------------------------------------------------------------------------------------
+    def own_add(self, own, o, d):
+        return own_add(own, o, d)
+
     def nonnull(self, st, o, what):
         return self.live(self.cx.require(st, o != NULL, "valid-deref:%s" % what), o, what)
 
@@ -97,15 +110,13 @@ class Api:
         used = [f for f in fresh if z3.is_expr(o) and o.eq(f) and not any(f.eq(h) for h in held)]
         if not used:
             return st
-        cond = z3.And(*[z3.Or(st.own[f] > own0[f], *[f == p for p in kept]) for f in used])
+        cond = z3.And(*[z3.Or(st.own[f] > own0[f], immortal(f), *[f == p for p in kept]) for f in used])
         return self.cx.require(st, cond, "valid-deref:live-reference:%s" % what)
 
     def own_inc(self, st, o, d=1):
         if st.own is None:
             return st
-        if z3.is_expr(o) and o.eq(EMPTY_TUPLE):
-            return st            # immortal in CPython 3.12: reference counting on it has no effect
-        return st.with_own(z3.Store(st.own, o, st.own[o] + d))
+        return st.with_own(own_add(st.own, o, d))
 
     def fresh_obj(self, prefix, st):
         """a new reference to some non-NULL object (possibly an existing one: results of Python code may alias)"""
@@ -164,14 +175,14 @@ class Api:
         return k(None, self.own_inc(st, a[0], -1))
 
     def f_Py_XINCREF(self, a, st, k):
-        if st.own is None or a[0].eq(EMPTY_TUPLE):
+        if st.own is None:
             return k(None, st)
-        return k(None, st.with_own(z3.If(a[0] != NULL, z3.Store(st.own, a[0], st.own[a[0]] + 1), st.own)))
+        return k(None, st.with_own(own_add(st.own, a[0], 1)))
 
     def f_Py_XDECREF(self, a, st, k):
-        if st.own is None or a[0].eq(EMPTY_TUPLE):
+        if st.own is None:
             return k(None, st)
-        return k(None, st.with_own(z3.If(a[0] != NULL, z3.Store(st.own, a[0], st.own[a[0]] - 1), st.own)))
+        return k(None, st.with_own(own_add(st.own, a[0], -1)))
 
     def f_Py_NewRef(self, a, st, k):
         st = self.nonnull(st, a[0], "Py_NewRef")
@@ -203,8 +214,9 @@ class Api:
         return k(subtype(a[0], a[1]), st)
 
     def f_PyCallable_Check(self, a, st, k):
-        st = self.nonnull(st, a[0], "PyCallable_Check")
-        return k(callable_(a[0]), st)
+        # CPython: `if (x == NULL) return 0;` -- a NULL argument is answered, not dereferenced
+        return self.cx.branch(st, a[0] == NULL, lambda s: k(z3.BoolVal(False), s),
+                              lambda s: k(callable_(a[0]), self.live(s, a[0], "PyCallable_Check")))
 
     # ---- floats / ints -----------------------------------------------------------------------------------------
     def f_PyFloat_AS_DOUBLE(self, a, st, k):
@@ -241,7 +253,11 @@ class Api:
 
     def f_PyLong_AsLong(self, a, st, k):
         o = a[0]
-        st = self.nonnull(st, o, "PyLong_AsLong")
+        if self.cx.feasible(st, o == NULL):
+            # CPython: PyLong_AsLong(NULL) is PyErr_BadInternalCall(): -1 with SystemError, no dereference
+            return k(z3.IntVal(-1), st.assume(o == NULL).with_exc(EXC["SystemError"])) + (
+                self.f_PyLong_AsLong(a, st.assume(o != NULL), k) if self.cx.feasible(st, o != NULL) else [])
+        st = self.live(st, o, "PyLong_AsLong")
 
         def isint(s):
             return self.cx.branch(s, long_fits(o), lambda t: k(long_val(o), t),
@@ -469,7 +485,7 @@ def _tuple_set_item(self, a, st, k):
     built[(t.get_id(), z3.simplify(i).as_long() if z3.is_int_value(z3.simplify(i)) else str(i))] = v
     st = st.gset("built", built)
     if st.own is not None:
-        st = st.with_own(z3.If(v != NULL, z3.Store(st.own, v, st.own[v] - 1), st.own))
+        st = st.with_own(own_add(st.own, v, -1))
     return k(None, st)
 
 
@@ -584,6 +600,66 @@ Api.f_PyDict_SetItem = _dict_setitem
 Api.f_PyDict_DelItem = _dict_delitem
 Api.f_PyDict_New = _dict_new
 Api.f_PyList_GET_SIZE = _list_get_size
+
+
+def list_item_arr(st):
+    return st.mem.get("@listitem", z3.Const("listitem0", z3.ArraySort(Obj, z3.ArraySort(INT, Obj))))
+
+
+def _list_new(self, a, st, k):
+    """PyList_New(n): a new list of n NULL slots (A-ALLOC: succeeds)"""
+    n = as_int(a[0])
+    r, st2 = self.fresh_obj("newlist", st)
+    la, ia = list_len_arr(st2), list_item_arr(st2)
+    st2 = st2.with_mem("@listlen", z3.Store(la, r, n)).with_mem("@listitem", z3.Store(ia, r, z3.K(INT, NULL)))
+    return k(r, st2.assume(is_exact(r, "PyList_Type"), is_inst(r, "PyList_Type"), n >= 0))
+
+
+def _list_get_item(self, a, st, k):
+    """borrowed reference to slot i"""
+    l, i = a[0], as_int(a[1])
+    st = self.nonnull(st, l, "PyList_GET_ITEM")
+    st = self.cx.require(st, z3.And(0 <= i, i < list_len_arr(st)[l]), "bounds:PyList_GET_ITEM", witness={"index": i, "len": list_len_arr(st)[l]})
+    return k(list_item_arr(st)[l][i], st)
+
+
+def _list_set_item(self, a, st, k):
+    """PyList_SET_ITEM(l, i, v): fills slot i of a NEW list, stealing the reference to v (the old content is not released)"""
+    l, i, v = a[0], as_int(a[1]), a[2]
+    st = self.nonnull(st, l, "PyList_SET_ITEM")
+    st = self.cx.require(st, z3.And(0 <= i, i < list_len_arr(st)[l]), "bounds:PyList_SET_ITEM", witness={"index": i, "len": list_len_arr(st)[l]})
+    ia = list_item_arr(st)
+    st = self.cx.require(st, ia[l][i] == NULL, "bounds:PyList_SET_ITEM-overwrites-a-filled-slot")
+    st = st.with_mem("@listitem", z3.Store(ia, l, z3.Store(ia[l], i, v)))
+    if st.own is not None:
+        st = st.with_own(own_add(st.own, v, -1))
+    return k(None, st)
+
+
+def _build_value(self, a, st, k):
+    """Py_BuildValue(fmt, ...): a new object built from the arguments; 'O' items must be non-NULL (A-ALLOC: succeeds)"""
+    fmt = a[0].s if isinstance(a[0], StrLit) else None
+    if fmt is None:
+        raise Unsupported("Py_BuildValue with a non-literal format")
+    codes = [c for c in fmt if c in "Oisn"]
+    if len(codes) != len(a) - 1 or any(c not in "OisnN() " for c in fmt):
+        raise Unsupported("Py_BuildValue format %r" % fmt)
+    st2 = st
+    for c, v in zip(codes, a[1:]):
+        if c == "O":
+            st2 = self.nonnull(st2, v, "Py_BuildValue-O-item")
+    r, st2 = self.fresh_obj("built", st2)
+    facts = []
+    if len(codes) > 1:
+        facts += [is_exact(r, "PyTuple_Type"), is_inst(r, "PyTuple_Type"), tuple_len(r) == len(codes)]
+        facts += [tuple_item(r, z3.IntVal(i)) == v for i, (c, v) in enumerate(zip(codes, a[1:])) if c == "O"]
+    return k(r, st2.assume(*facts))
+
+
+Api.f_PyList_New = _list_new
+Api.f_PyList_GET_ITEM = _list_get_item
+Api.f_PyList_SET_ITEM = _list_set_item
+Api.f_Py_BuildValue = _build_value
 
 
 str_val = z3.Function("str_val", Obj, z3.StringSort())
